@@ -96,12 +96,15 @@ class ValidateVariableNamesVisitor(Visitor.DefaultVisitor):
             forStatement.AcceptVisitor(self, ctx)
 
     def v_IfStatement(self, ifStatement, ctx=None):
-        ctx = self.Context(ctx)
-
+        # Both branches are separate scopes: a variable declared in one branch
+        # is not visible in the other
         with Errors.CompileExceptionToErrorHandler(
             self.errorHandler, self.__onError
         ):
-            ifStatement.AcceptVisitor(self, ctx)
+            self.v_Visit(ifStatement.GetCondition(), self.Context(ctx))
+            self.v_Visit(ifStatement.GetTruePath(), self.Context(ctx))
+            if ifStatement.HasElsePath():
+                self.v_Visit(ifStatement.GetElsePath(), self.Context(ctx))
 
     def v_VariableDeclaration(self, decl, ctx):
         ctx.Add(decl.GetName(), decl.GetLocation())
